@@ -443,56 +443,58 @@ class ESME:
                         )
                     continue
                 messages_to_send: List[SmppMessage] = [smpp_message]
-                if isinstance(smpp_message, SubmitSm):
-                    smpp_message.set_encoding_info(self.default_encoding, self.custom_codecs)
-                    if not smpp_message.auto_message_payload:
-                        # If auto_message_payload is not set, the message may need to be split
-                        msg_parts: List[bytes]
-                        parts_count: int
-                        ref_num: int = self._ref_seq_generator.next_sequence()
-                        if smpp_message.esm_class & 0b01000000:  # UDHI flag is set
-                            encoding: str = detect_format(smpp_message.short_message)
-                            msg_parts = split_sms_udh(smpp_message.short_message, encoding, ref_num)
-                            parts_count = len(msg_parts)
-                            if parts_count == 1:
-                                # No splitting needed, remove UDHI flag
-                                smpp_message.esm_class = smpp_message.esm_class & 0b10111111
-                            else:
-                                smpp_message.encoding = encoding
-                        else:
-                            msg: bytes = smpp_message.smpp_encode(smpp_message.short_message)
-                            # smpp_encode switches the message to ucs2 if default encoding fails
-                            msg_parts = split_sms(
-                                smpp_message.short_message, smpp_message.encoding or ''
-                            )
-                            parts_count = len(msg_parts)
-                            if parts_count == 1:
-                                # No splitting needed, set encoded message to avoid re-encoding
-                                smpp_message.set_encoded_message(msg)
-                        assert smpp_message.optional_params is not None  # Must not be None
-                        if parts_count > 1:
-                            self._logger.debug(
-                                'Message split',
-                                parts=parts_count,
-                                ref=ref_num,
-                                message=smpp_message,
-                            )
-                            messages_to_send.clear()
-                            for index, part in enumerate(msg_parts):
-                                new_message: SubmitSm = smpp_message.clone()
-                                new_message.set_encoded_message(part)
-                                assert new_message.optional_params is not None
-                                new_message.optional_params.append(
-                                    OptionalParam(SAR_MSG_REF_NUM, ref_num)
-                                )
-                                new_message.optional_params.append(
-                                    OptionalParam(SAR_SEGMENT_SEQNUM, index + 1)
-                                )
-                                new_message.optional_params.append(
-                                    OptionalParam(SAR_TOTAL_SEGMENTS, parts_count)
-                                )
-                                messages_to_send.append(new_message)
                 try:
+                    if isinstance(smpp_message, SubmitSm):
+                        smpp_message.set_encoding_info(self.default_encoding, self.custom_codecs)
+                        if not smpp_message.auto_message_payload:
+                            # If auto_message_payload is not set, the message may need to be split
+                            msg_parts: List[bytes]
+                            parts_count: int
+                            ref_num: int = self._ref_seq_generator.next_sequence()
+                            if smpp_message.esm_class & 0b01000000:  # UDHI flag is set
+                                encoding: str = detect_format(smpp_message.short_message)
+                                msg_parts = split_sms_udh(
+                                    smpp_message.short_message, encoding, ref_num
+                                )
+                                parts_count = len(msg_parts)
+                                if parts_count == 1:
+                                    # No splitting needed, remove UDHI flag
+                                    smpp_message.esm_class = smpp_message.esm_class & 0b10111111
+                                else:
+                                    smpp_message.encoding = encoding
+                            else:
+                                msg: bytes = smpp_message.smpp_encode(smpp_message.short_message)
+                                # smpp_encode switches the message to ucs2 if default encoding fails
+                                msg_parts = split_sms(
+                                    smpp_message.short_message, smpp_message.encoding or ''
+                                )
+                                parts_count = len(msg_parts)
+                                if parts_count == 1:
+                                    # No splitting needed, set encoded message to avoid re-encoding
+                                    smpp_message.set_encoded_message(msg)
+                            assert smpp_message.optional_params is not None  # Must not be None
+                            if parts_count > 1:
+                                self._logger.debug(
+                                    'Message split',
+                                    parts=parts_count,
+                                    ref=ref_num,
+                                    message=smpp_message,
+                                )
+                                messages_to_send.clear()
+                                for index, part in enumerate(msg_parts):
+                                    new_message: SubmitSm = smpp_message.clone()
+                                    new_message.set_encoded_message(part)
+                                    assert new_message.optional_params is not None
+                                    new_message.optional_params.append(
+                                        OptionalParam(SAR_MSG_REF_NUM, ref_num)
+                                    )
+                                    new_message.optional_params.append(
+                                        OptionalParam(SAR_SEGMENT_SEQNUM, index + 1)
+                                    )
+                                    new_message.optional_params.append(
+                                        OptionalParam(SAR_TOTAL_SEGMENTS, parts_count)
+                                    )
+                                    messages_to_send.append(new_message)
                     for message in messages_to_send:
                         # Check with throttle handler
                         while not await self.throttle_handler.allow_request():
